@@ -41,6 +41,10 @@ def run(ctx, rep):
     check_plain_state(fx, rep)
     check_update(fx, rep)
     check_apply(fx, rep)
+    # the state half of the merge is BundleAccount::update_and_create_revert: its pair table and
+    # storage disposition (C17's rule set) decide what to_plain_state later finds in the account
+    import engine
+    engine.run_included(ctx, rep, ('c17',))
 
 
 def atoms_of(r):
